@@ -71,7 +71,7 @@ func c17Run(e *Env, p *c17Plan, subs []simnet.Faults) {
 		foreign      int
 		srv          *simnet.Conn
 		readErr      error
-		kept         net.Conn
+		kept         chan net.Conn // handed over through a channel: a real happens-before edge
 	}
 	recs := map[string]*hj{}
 	clients := map[string]*simnet.Conn{}
@@ -109,7 +109,7 @@ func c17Run(e *Env, p *c17Plan, subs []simnet.Faults) {
 			rec.foreign = rec.srv.ForeignOps
 			rec.returned = true
 			if p.Keep {
-				rec.kept = c
+				rec.kept <- c
 			}
 		})
 	}
@@ -140,7 +140,7 @@ func c17Run(e *Env, p *c17Plan, subs []simnet.Faults) {
 			conn.F = subs[ci]
 			addr := conn.LocalAddr().String()
 			clients[addr] = conn
-			recs[addr] = &hj{}
+			recs[addr] = &hj{kept: make(chan net.Conn, 1)}
 			want[addr] = c.TailLen
 			rbuf[addr] = c.ReadBuf
 			ex := &Exchange{Addr: addr}
@@ -247,8 +247,10 @@ func c17Run(e *Env, p *c17Plan, subs []simnet.Faults) {
 				e.Violation("kept-touched", "conn %d: KeepHijackedConns is set, yet the server issued %d operations on the connection after the hijack handler returned", ci, rec.srv.ForeignOps)
 				return
 			}
-			if rec.kept != nil {
-				rec.kept.Close()
+			select {
+			case kc := <-rec.kept:
+				kc.Close()
+			default:
 			}
 		} else if !rec.srv.Closed() {
 			e.Violation("not-closed", "conn %d: the hijack handler returned and the server left the connection open", ci)
